@@ -38,7 +38,7 @@ def apply(dst):
                       '        #[cfg(n2_verif)]\n        if verif_sched::verif_cut() {\n'
                       '            let _ = &result;\n            verif_sched::on_record(id);\n            return Ok(());\n        }\n',
                       'Work::record_finished')
-    t = _insert_after(t, r'fn create_parent_dirs\(&self, ids: &\[FileId\]\) -> anyhow::Result<\(\)> \{\n',
+    t = _insert_after(t, r'fn create_parent_dirs\(\s*&(?:mut )?self,\s*ids: &\[FileId\](?:,[^)]*)?\s*\) -> anyhow::Result<\(\)> \{\n',
                       '        #[cfg(n2_verif)]\n        if verif_sched::verif_active() {\n            let who = ids.first().and_then(|&f| self.graph.file(f).input);\n            return verif_sched::on_mkdir(who);\n        }\n',
                       'Work::create_parent_dirs')
     open(p, 'w').write(t)
